@@ -1253,6 +1253,8 @@ def main():
         attempt(f + ".idx", lambda f=f: translate_locals_slice(src("adf_bitm.c"), f, "s_%s_idx" % f,
                                                                ["sectOfMap", "block", "indexInMap"]))
 
+    attempt("adfEntry2CacheEntry.len", lambda: translate_lvalue_slice(src("adf_cache.c"), "adfEntry2CacheEntry", "s_adfEntry2CacheEntry_len", ["entryLen"]))
+    attempt("adfPutCacheEntry.len", lambda: translate_lvalue_slice(src("adf_cache.c"), "adfPutCacheEntry", "s_adfPutCacheEntry_len", ["l"]))
     for f in ("adfIsBlockFree", "adfSetBlockFree", "adfSetBlockUsed"):
         attempt(f + ".val", lambda f=f: translate_cell_slice(src("adf_bitm.c"), f, "s_%s_val" % f, "map"))
 
